@@ -260,6 +260,15 @@ func c16Atoms() []c16Atom {
 	rng("\\x00-"+string(rune(0x10FFFE)), 0, 0x10FFFE, never, all) // normalised to [^\x{10FFFF}]
 	rng("\\x00-"+string(rune(0x10FFFF)), 0, 0x10FFFF, never, all) // anything
 	rng(string(rune(0x10000))+"-"+string(rune(0x10FFFF)), 0x10000, 0x10FFFF, never, all)
+	// ranges that start or end exactly at the ASCII bitmap's boundary
+	rng(`\x7f-\xff`, 0x7f, 0xff, never, all)
+	rng(`\x7e-\x80`, 0x7e, 0x80, never, all)
+	rng(`\x80-\xff`, 0x80, 0xff, never, all)
+	rng(`\x00-\x7f`, 0, 0x7f, never, all)
+	rng(`\x00-\x7e`, 0, 0x7e, never, all)
+	rng(`\x7f-\x7f`, 0x7f, 0x7f, never, all)
+	rng(`\x00-\x00`, 0, 0, never, all)
+	rng(`\x3f-\x40`, 0x3f, 0x40, never, all) // the 64-bit word boundary inside the bitmap
 	// ---- shorthands
 	sh := func(text string, neg bool, def func(m c16Mode) c16Pred) {
 		d := def
